@@ -268,11 +268,54 @@ def r2_by_ref_agreement(ctx, rule="C03.R2"):
                     ok = False
                 if not f.body.dominates(sw_t["else"], e.bb):
                     ok = False
+        if not ok and not tests:
+            ok = _filtered_chain_form(prog, f, guarded)
         ctx.decide(ok, rule, "%s:%s:guarded-by-is_by_ref" % (rule, name), f.loc,
                    "%s is emitted exactly for the arguments with is_by_ref()" % guarded,
                    "%s does not emit %s under an is_by_ref() test of its argument list: enqueued and "
                    "dequeued values go out of step" % (name, guarded))
     ctx.require(rule, 5)
+
+
+def _filtered_chain_form(prog, f, guarded):
+    """the iterator spelling of the guarded loop: `args.iter()..filter(|a| a.is_by_ref()).for_each(|a| push(X))` -
+    one closure of f that answers is_by_ref of its item is handed to `filter`, and X is pushed only by a closure
+    that is applied to what the filter lets through"""
+    closures = prog.closures_of(f, deep=False) if "deep" in prog.closures_of.__code__.co_varnames else prog.closures_of(f)
+    testers = [c for c in closures if any(mir.callee_path(t).split("::")[-1] == "is_by_ref" for _b, t in c.body.calls())]
+    if len(testers) != 1:
+        return False
+    pv = mir.Prov(f.body)
+    filt_blocks = []
+    for b, t in f.body.calls():
+        if mir.callee_path(t).split("::")[-1] == "filter" and len(t["args"]) > 1:
+            so = mir.strip_all(pv.of_operand(t["args"][1]))
+            if so[0] == "agg" and so[1] == "closure" and so[2] == testers[0].id:
+                filt_blocks.append(b)
+    if len(filt_blocks) != 1:
+        return False
+
+    def pushes_guarded(body):
+        cpv = mir.Prov(body)
+        for _b, t in body.calls():
+            if mir.callee_path(t).split("::")[-1] == "push" and len(t["args"]) > 1:
+                so = mir.strip_all(cpv.of_operand(t["args"][1]))
+                if so[0] == "agg" and (so[2] or "").endswith("::" + guarded):
+                    return True
+        return False
+    if pushes_guarded(f.body):
+        return False          # also pushed outside the filtered chain
+    pushers = [c for c in closures if pushes_guarded(c.body)]
+    if len(pushers) != 1:
+        return False
+    for b, t in f.body.calls():
+        if mir.callee_path(t).split("::")[-1] in ("for_each", "try_for_each", "map") and len(t["args"]) > 1:
+            so = mir.strip_all(pv.of_operand(t["args"][1]))
+            recv = pv.of_operand(t["args"][0])
+            if so[0] == "agg" and so[1] == "closure" and so[2] == pushers[0].id and \
+                    mir.origin_mentions(recv, lambda z: z[0] == "call" and len(z) > 3 and z[3] == filt_blocks[0]):
+                return True
+    return False
 
 
 def r3_fifo(ctx, rule="C03.R3"):
@@ -327,6 +370,31 @@ def r3_fifo(ctx, rule="C03.R3"):
     ctx.require(rule, 5)
 
 
+def _emitted_instructions(prog, g, depth=2, _memo={}):
+    """Instruction variants a generator function emits itself or through the generator functions it calls"""
+    k = (id(prog), g.id, depth)
+    if k in _memo:
+        return _memo[k]
+    _memo[k] = set()
+    out = set()
+    if emit.is_generator_fn(g):
+        for e in emit.events(prog, g).values():
+            if e.kind == "push" and e.instr:
+                out.add(e.instr)
+            elif depth and e.callee is not None and e.kind == "gen":
+                out |= _emitted_instructions(prog, e.callee, depth - 1)
+        # pushes made by the closures of an iterator chain (`.for_each(|a| self.push(Instruction::X ..))`)
+        for c in prog.closures_of(g):
+            cpv = mir.Prov(c.body)
+            for _b, t in c.body.calls():
+                if mir.callee_path(t).split("::")[-1] == "push" and len(t["args"]) > 1:
+                    so = mir.strip_all(cpv.of_operand(t["args"][1]))
+                    if so[0] == "agg" and "Instruction::" in (so[2] or ""):
+                        out.add(so[2].split("::")[-1])
+    _memo[k] = out
+    return out
+
+
 def r4_activation_pairing(ctx, rule="C03.R4"):
     prog = ctx.prog
     V = vmmod.VM(prog)
@@ -353,19 +421,27 @@ def r4_activation_pairing(ctx, rule="C03.R4"):
         okall = True
         why = ""
         for seq in seqs:
+            # each event by what it emits (directly, or through the private helper it calls - two levels):
+            # helpers are recognised by their instructions, not by their names
             names = []
             for ev in seq:
                 if ev.kind == "push":
-                    names.append(ev.instr)
+                    names.append({ev.instr})
                 elif ev.callee is not None:
-                    names.append(ev.callee.name)
-            def pos(x):
-                return names.index(x) if x in names else -1
-            push_args = max(pos("generate_push_named_args_instructions"), pos("generate_push_unnamed_args_instructions"))
-            push_stack = max(pos("push_stack"), pos("PushStack"))
+                    names.append(_emitted_instructions(prog, ev.callee))
+                else:
+                    names.append(set())
+
+            def pos(*instrs):
+                for k, st_ in enumerate(names):
+                    if st_ & set(instrs):
+                        return k
+                return -1
+            push_args = pos("BeginCollectArguments")
+            push_stack = pos("PushStack", "PushStaticStack")
             pop = pos("PopStack")
-            stash = pos("generate_stash_by_ref_args")
-            unstash = pos("generate_un_stash_by_ref_args")
+            stash = pos("EnqueueToReturnStack")
+            unstash = pos("DequeueFromReturnStack")
             conds = [(0 <= push_args < push_stack, "arguments are collected before PushStack"),
                      (push_stack < pop, "PushStack precedes PopStack"),
                      (push_stack < stash < pop, "by-ref values are stashed while the callee context is current"),
@@ -373,15 +449,15 @@ def r4_activation_pairing(ctx, rule="C03.R4"):
             # what is stashed is what is written back: both walk the same argument list (a list filtered for
             # one of them enqueues values nobody dequeues - the queue grows, and the leftover is taken for an
             # argument of the enclosing call)
-            st_ev = [ev for ev in seq if ev.callee is not None and ev.callee.name == "generate_stash_by_ref_args"]
-            un_ev = [ev for ev in seq if ev.callee is not None and ev.callee.name == "generate_un_stash_by_ref_args"]
+            st_ev = [ev for ev in seq if ev.callee is not None and "EnqueueToReturnStack" in _emitted_instructions(prog, ev.callee)]
+            un_ev = [ev for ev in seq if ev.callee is not None and "DequeueFromReturnStack" in _emitted_instructions(prog, ev.callee)]
             if st_ev and un_ev and len(st_ev[0].args) > 1 and len(un_ev[0].args) > 1:
                 a, b2 = mir.strip_all(st_ev[0].args[1]), mir.strip_all(un_ev[0].args[1])
                 conds.append((a == b2, "the list of arguments written back (%s) is the list that was stashed (%s)"
                               % (mir.short_origin(b2), mir.short_origin(a))))
             if "function" in name:
-                sf = pos("generate_stash_function_return_value")
-                uf = pos("generate_un_stash_function_return_value")
+                sf = pos("StashFunctionReturnValue")
+                uf = pos("UnStashFunctionReturnValue")
                 conds.append((push_stack < sf < pop, "the function value is read before the callee context is popped"))
                 conds.append((pop < uf, "the function value is delivered after PopStack"))
             for c, w in conds:
